@@ -139,6 +139,21 @@ class LogsProfile:
 
     def gen_run(self, rnd, opts, tier, tag):
         steps = [{"kind": "reload", "ents": gen_section(rnd), "mode": "start"}]
+        if rnd.random() < 0.04:
+            # a long lifetime: dozens of reloads in which one destination stays attached throughout while the
+            # others come and go, so that many destinations are opened and closed over one process lifetime
+            anchor = [rnd.choice(["*.*", "*.>=debug", "*.<=fatal"]), rnd.choice(FEW)]
+            steps[0]["ents"] = [list(anchor)] + steps[0]["ents"][:2]
+            for _ in range(rnd.randint(35, 70)):
+                ents = [list(anchor)]
+                for _ in range(rnd.randint(1, 3)):
+                    fac = rnd.choice(FACS + ["*"])
+                    sev = rnd.choice(["*", ">=debug", "<=error", "info,warning,error", ">command"])
+                    files = rnd.sample([f for f in FILES if f != anchor[1]], rnd.choice([1, 1, 2, 3]))
+                    ents.append(["%s.%s" % (fac, sev), files if len(files) > 1 or rnd.random() < 0.3 else files[0]])
+                steps.append({"kind": "reload", "ents": ents, "mode": "plain"})
+            plan = {"profile": "logs", "steps": steps, "adv": [rnd.choice([0, 0, 1, 59]) for _ in steps], "long": 0, "lifetime": "long"}
+            return plan, self.run(plan, tag)
         for _ in range(rnd.randint(1, 5)):
             k = rnd.random()
             if k < 0.55:
@@ -190,7 +205,7 @@ class LogsProfile:
         res = proto.Result()
         res.extra = {"reloads": 0, "identical_reloads": 0, "failed_reloads": 0, "messages_emitted": 0, "lines_checked": 0,
                      "entries": 0, "entries_ignored": 0, "emitted_between_signals": 0, "valid_file_rejected": 0, "pairs_routed": 0,
-                     "long_messages": 0, "stamped_with_simulated_time": 0}
+                     "long_messages": 0, "stamped_with_simulated_time": 0, "long_lifetimes": int(plan.get("lifetime") == "long")}
         scratch = H.new_scratch(tag)
         conf = os.path.join(scratch, "iauthd.conf")
         steps = plan["steps"]
